@@ -9,7 +9,9 @@
 
     [model_check]: the observation equals what the Gallina model (Model.v) computes.
     [spec_check]: the observation satisfies the property, decided by trial division written here
-      directly on binary integers — it does not mention the model. *)
+      directly on binary integers — it does not mention the model.
+    [model_check c = true -> spec_check c = true] for every case: ProofsCorr.v (pinned as
+    c13_model_check_spec_check). *)
 From Coq Require Import List ZArith Bool String Ascii.
 From RlibV Require Import Common.Batch C13.Model.
 Import ListNotations.
